@@ -253,3 +253,428 @@ def observe(stdout, first, n):
 
 def agree(case, o):
     return o["ended"] and o["out"] == case["out"]
+
+
+# --------------------------------------------------------------------------- binding T: table event logs
+
+def norm_events(path, run):
+    """One recorded process -> uniform event records for SharedTables_Trace (projection: ids + 1, absent fields
+    filled in) with exact repetitions of an access tuple (goroutine, table, write, locked, flag) dropped: the
+    judgement of an access depends on that tuple and on reach/shared, which a repetition cannot change."""
+    out = [{"run": run, "e": "reset", "g": 0, "n": 0, "t": 0, "w": False, "l": False, "s": False, "f": "", "h": []}]
+    seen = set()
+    raw = 0
+    ch = lambda c: [[int(t) + 1, int(f)] for t, f in c]
+    with open(path) as f:
+        for line in f:
+            line = line.strip()
+            if not line:
+                continue
+            try:
+                ev = json.loads(line)
+            except ValueError:
+                raise vf.NoVerdict("unreadable event in %s: %r" % (path, line[:120]))
+            raw += 1
+            if ev["e"] == "acc":
+                key = (ev["g"], ev["t"], ev["w"], ev["l"], ev["s"], ev.get("f", ""))
+                if key in seen and "c" not in ev:
+                    continue
+                seen.add(key)
+                out.append({"run": run, "e": "acc", "g": ev["g"], "n": 0, "t": ev["t"] + 1, "w": ev["w"], "l": ev["l"],
+                            "s": ev["s"], "f": ev.get("f", ""), "h": [ch(ev["c"])] if "c" in ev else []})
+            else:
+                out.append({"run": run, "e": ev["e"], "g": ev["g"], "n": ev.get("n", 0), "t": 0, "w": False, "l": False,
+                            "s": False, "f": "", "h": [ch(c) for c in ev["h"]]})
+    return out, raw
+
+
+# --------------------------------------------------------------------------- race-detector reports (observation)
+
+_EGO = "github.com/tucats/ego/internal/"
+
+
+def _frame_class(frames):
+    """Innermost interpreter frame of one side of a report: the symbols package as a whole, else package.function."""
+    for f in frames:
+        if f.startswith(_EGO):
+            f = f[len(_EGO):]
+            pkg, _, fn = f.rpartition("/")[2].partition(".")
+            if pkg == "symbols":
+                return "symbols"
+            fn = re.sub(r"\(\*?(\w+)\)\.", r"\1.", fn)
+            return "%s.%s" % (pkg, re.sub(r"\.func\d+.*$|\.gowrap\d+$", "", fn))
+    return ""
+
+
+def race_reports(stderr):
+    """[(class-of-side-A ~ class-of-side-B, text)] for every report that involves interpreter frames."""
+    out = []
+    for blk in stderr.split("==================")[1:]:
+        if "WARNING: DATA RACE" not in blk:
+            continue
+        sides = []
+        for part in re.split(r"\n\s*\n", blk.strip()):
+            head = part.strip().splitlines()[0] if part.strip() else ""
+            if head.startswith("WARNING"):
+                part = "\n".join(part.strip().splitlines()[1:])
+                head = part.splitlines()[0] if part else ""
+            if re.match(r"(Previous )?(read|write|atomic)", head, re.I) or re.match(r"(Read|Write) at", head):
+                frames = re.findall(r"^\s+(\S+)\(\)\s*$", part, re.M)
+                sides.append(_frame_class(frames))
+        sides = sorted(s for s in sides[:2])
+        if any(sides):
+            out.append(("~".join(s or "other" for s in sides), blk.strip()[:6000]))
+    return out
+
+
+_FATAL = re.compile(r"^(fatal error: .*|panic: .*|unexpected fault address.*)$", re.M)
+
+
+# --------------------------------------------------------------------------- stages
+
+def _cases(recs):
+    seen, out = set(), []
+    for c in recs:
+        if isinstance(c, dict) and "id" in c and "main" in c and c["id"] not in seen:
+            seen.add(c["id"])
+            out.append(c)
+    return out
+
+
+def _cls(c):
+    return "%s/%s/%s" % (c["fam"], c["form"], c["site"])
+
+
+def _write(path, text):
+    with open(path, "w") as f:
+        f.write(text)
+    return path
+
+
+def _run_R(ego, env, sd, files, tag, timeout):
+    """files: [(cases, procs, yield-spec)] -> [(cases, procs, yield, (rc, out, err), path)]"""
+    jobs, meta = [], []
+    for n, (b, procs, yld) in enumerate(files):
+        p = _write(os.path.join(sd, "%s%d.ego" % (tag, n)), render(b))
+        e = dict(env, GOMAXPROCS=str(procs), GORACE="halt_on_error=0")
+        if yld:
+            e["VERIF_YIELD"] = yld
+        jobs.append(([ego, "run", p], None, sd, e))
+        meta.append((b, procs, yld, p))
+    res = vf.run_many(jobs, nproc=min(vf.NCPU, 12), timeout=timeout)
+    return [(b, procs, yld, r, p) for (b, procs, yld, p), r in zip(meta, res)]
+
+
+def _judge_R(chk, runs, stats):
+    """Compares what every process printed with what TLC computed; classifies race reports and fatal errors."""
+    for b, procs, yld, (rc, so, se), p in runs:
+        form = b[0]["form"]
+        ctx = {"gomaxprocs": procs, "yield": yld, "rc": rc}
+        if rc is None:
+            stats["late"].append((b, procs, yld))
+            continue
+        stats["procs"] += 1
+        obs, other = observe(so, 1, len(b))
+        fatal = _FATAL.search(se) if rc not in (0, 66) else None
+        races = race_reports(se)
+        for sig, text in races:
+            chk.violation("race/%s/%s" % (form, sig),
+                          "the Go race detector reports an unsynchronized access inside the interpreter (%s) while a fully "
+                          "synchronized %s program runs (GOMAXPROCS=%s, yield %s)" % (sig, form, procs, yld),
+                          {"mode": "R", "cases": b, "report": text, **ctx})
+        if fatal:
+            chk.violation("fatal/%s/%s" % (form, re.sub(r"[^A-Za-z ]+", "", fatal.group(1))[:40].strip().replace(" ", "-")),
+                          "the interpreter died with a Go runtime error while a fully synchronized %s program runs: %s"
+                          % (form, fatal.group(1)), {"mode": "R", "cases": b, "stderr": se[-3000:], **ctx})
+        for c, o in zip(b, obs):
+            stats["run"] += 1
+            stats["vals"] += len(c["out"]) + 1
+            if agree(c, o):
+                continue
+            if fatal:
+                continue        # already reported; the cases after the crash did not run
+            stats["suspects"].append((c, procs, yld, o, rc, se[-600:], other[:4]))
+
+
+def _trace_stage(chk, ego, env, sd, sel, tag, timeout):
+    """Runs each case alone with VERIF_TABLE_LOG, lets SharedTables_Trace judge the recorded events.
+    Returns (events, bad records with their case attached, loose sites, raw event count)."""
+    jobs, meta = [], []
+    for n, c in enumerate(sel):
+        p = _write(os.path.join(sd, "%s%d.ego" % (tag, n)), render([c]))
+        lg = os.path.join(sd, "%s%d.tlog" % (tag, n))
+        jobs.append(([ego, "run", p], None, sd, dict(env, GOMAXPROCS="4", VERIF_TABLE_LOG=lg)))
+        meta.append((c, lg))
+    res = vf.run_many(jobs, nproc=min(vf.NCPU, 12), timeout=timeout)
+    evs, used, raw = [], [], 0
+    for (c, lg), (rc, so, se) in zip(meta, res):
+        if rc is None:
+            raise vf.NoVerdict("a traced program did not finish within %d s: %s" % (timeout, c["id"]))
+        if not os.path.exists(lg):
+            raise vf.NoVerdict("no table event log was written: the tree has no verif hooks in internal/language/symbols "
+                               "(VERIF_TABLE_LOG ignored) - C08 is meant for a tree with the 'verif hooks' commits")
+        e, r = norm_events(lg, len(used) + 1)
+        raw += r
+        if not any(x["e"] == "fork" for x in e):
+            raise vf.NoVerdict("a traced program recorded no fork event: %s" % c["id"])
+        evs += e
+        used.append(c)
+    tp = vf.write_ndjson(os.path.join(sd, tag + "trace.ndjson"), evs)
+    r = vf.tlc(SPEC, "SharedTables_Trace", "SharedTables_Trace.cfg", sd, workers=1, files={"trace.ndjson": tp},
+               timeout=3000)
+    if r.error or r.violated or r.rc != 0:
+        raise vf.NoVerdict("trace evaluation failed: %s %s\n%s" % (r.violated, r.error, r.stdout[-2500:]))
+    rep = [x for x in r.records if isinstance(x, dict) and "bad" in x and "n" in x]
+    if not rep or int(rep[-1]["n"]) != len(evs):
+        raise vf.NoVerdict("SharedTables_Trace did not consume the log\n" + r.stdout[-1500:])
+    chk.add_tlc(r, "trace validation (%s)" % tag, count_states=False)
+    bad = rep[-1]["bad"] if isinstance(rep[-1]["bad"], list) else []
+    loose = rep[-1]["loose"] if isinstance(rep[-1].get("loose"), list) else []
+    for b in bad:
+        b["case"] = used[b["run"] - 1]
+        b["event"] = evs[b["idx"] - 1]
+    return evs, bad, loose, raw, used
+
+
+def _trace_violations(chk, bad):
+    for b in bad:
+        c = b["case"]
+        where = b["f"] if b["e"] == "acc" else b["e"]
+        text = {"I1": "a symbol table that two goroutines can name is not marked shared",
+                "I2": "a table marked shared is accessed without its mutex while another goroutine accesses it, one of them writing",
+                "ForkSound": "the go statement hands a table to the new goroutine that is not marked shared",
+                "StartSound": "the new goroutine's own table hangs under a table that is not marked shared",
+                "FlagsGrow": "a shared flag was cleared", "Lock": "the mutex of an unshared table was held"}.get(b["rule"], b["rule"])
+        chk.violation("trace/%s/%s" % (b["rule"], c["form"]),
+                      "%s (event %s by goroutine %s on table %s in %s) while the fully synchronized program %s runs"
+                      % (text, b["e"], b["g"], b["t"] - 1, where, c["id"]),
+                      {"mode": "T", "case": c, "rule": b["rule"], "event": b["event"], "program": render([c])})
+
+
+def _replay(chk, ego, env, sd):
+    rep = json.load(open(os.environ["VERIF_REPLAY"]))["replay"]
+    cases = rep.get("cases") or [rep["case"]]
+    print(render(cases))
+    if rep.get("mode") == "T":
+        evs, bad, loose, raw, used = _trace_stage(chk, ego, env, sd, cases, "rp", 600)
+        print("events recorded: %d (%d after dropping repetitions), offending: %d" % (raw, len(evs), len(bad)))
+        for b in bad[:20]:
+            print("  ", b["rule"], b["event"])
+        _trace_violations(chk, bad)
+        return chk.finish()
+    stats = {"late": [], "procs": 0, "run": 0, "vals": 0, "suspects": []}
+    files = [(cases, rep.get("gomaxprocs", 4), rep.get("yield") or "%d:40" % (k + 1)) for k in range(8)]
+    runs = _run_R(ego, env, sd, files, "rp", 900)
+    _judge_R(chk, runs, stats)
+    for c, procs, yld, o, rc, se, other in stats["suspects"]:
+        print("expected:", c["out"], " observed:", o, "rc", rc, other, se[-300:])
+        chk.violation("out/" + _cls(c), "replayed case still differs from the specification", rep)
+    for b, procs, yld, (rc, so, se), p in runs:
+        print("GOMAXPROCS=%s yield=%s rc=%s races=%d" % (procs, yld, rc, se.count("WARNING: DATA RACE")))
+    return chk.finish()
+
+
+def run():
+    thorough = vf.TIER == "thorough"
+    chk = vf.Check(PROP)
+    chk.assumptions += [
+        "programs are those of ConcProg: goroutines launched as closures (with and without parameters), named functions "
+        "(pointer parameters / package variables), closures handed to a named function as an argument or through a "
+        "channel; one sync.Mutex, one sync.WaitGroup, buffered channels (capacity >= 1) with close and range; launched "
+        "from the function body, a nested block, a loop, or from another goroutine",
+        "the Go race detector is the observer of unsynchronized accesses in the real process; it only sees the "
+        "schedules that happen (GOMAXPROCS x seeded yield injection sample them), and the interpreter's own global "
+        "instruction counter (an atomic incremented by every dispatched instruction) orders most instructions of "
+        "different goroutines for the detector - the recorded table-event traces judged by TLC do not depend on timing",
+        "a table event trace is reduced before TLC reads it: an access tuple (goroutine, table, write, mutex held, "
+        "flag, function) is kept once per process - the judgement is a function of these tuples",
+        "channels with capacity 0 are not generated: Ego gives every channel at least one slot (documented), Go does not"]
+    rng = random.Random(vf.SEED)
+    with vf.scratch() as sd:
+        ov = vf.make_overlay(sd, [])
+        env = vf.ego_env(sd)
+        env["EGO_PATH"] = vf.REPO
+        if os.environ.get("VERIF_REPLAY"):
+            return _replay(chk, vf.build_ego(sd, ov, race=True), env, sd)
+        nsim = 160 if thorough else 40
+        with ThreadPoolExecutor(max_workers=8) as ex:
+            f_bin = ex.submit(vf.build_ego, sd, ov, True)
+            f_mc = ex.submit(vf.tlc, SPEC, "SharedTables", "SharedTables_MC.cfg" if thorough else "SharedTables_MCq.cfg", sd,
+                             workers=6 if thorough else 3, timeout=5400 if thorough else 1500)
+            negs = [(nm, inv, ex.submit(vf.tlc, SPEC, "SharedTables", cfg, sd, workers=2, timeout=1500))
+                    for nm, cfg, inv in (("BUG-94: the child marks after the fork", "SharedTables_MC_late.cfg", ("I2",)),
+                                         ("BUG-94, torn unlock", "SharedTables_MC_late2.cfg", ("NoTornUnlock",)),
+                                         ("Shared() without the parent crawl", "SharedTables_MC_noanc.cfg", ("I2",)),
+                                         ("goroutine.go as it is: function-valued arguments", "SharedTables_MC_codeargs.cfg", ("I1",)))]
+            f_gen = ex.submit(vf.tlc, SPEC, "ConcProg_Gen", "ConcProg_Gen.cfg" if thorough else "ConcProg_Genq.cfg", sd,
+                              workers=6 if thorough else 3, timeout=5400 if thorough else 1500)
+            f_nl = ex.submit(vf.tlc, SPEC, "ConcProg", "ConcProg_MC_nolock.cfg", sd, workers=1, timeout=900)
+            f_sim = ex.submit(vf.tlc, SPEC, "ConcProg_Gen", "ConcProg_GenS.cfg", sd, workers=1, simulate="num=%d" % nsim,
+                              depth=20000, seed=vf.SEED, timeout=3000)
+            r = vf.tlc_ok(f_mc.result(), "SharedTables (fixed)")
+            chk.add_tlc(r, "sharing protocol as demanded: I1 I2 NoTornUnlock ReachClosed FlagsGrow, exhaustive")
+            for nm, inv, f in negs:
+                rn = f.result()
+                if rn.violated not in inv:
+                    raise vf.NoVerdict("negative control '%s' did not violate %s (%s %s)" % (nm, inv, rn.violated, (rn.error or "")[:300]))
+                chk.add_tlc(rn, "negative control (%s) violates %s" % (nm, rn.violated), count_states=False)
+            rg = vf.tlc_ok(f_gen.result(), "ConcProg exhaustive")
+            chk.add_tlc(rg, "every schedule of every small program: Deterministic NoFault PrefixOK MutexSound, no wedge")
+            cases = _cases(rg.records)
+            nex = len(cases)
+            rn = f_nl.result()
+            if rn.violated != "Deterministic":
+                raise vf.NoVerdict("negative control 'no mutex' did not violate Deterministic (%s %s)" % (rn.violated, rn.error))
+            chk.add_tlc(rn, "negative control (Lock/Unlock do nothing) violates Deterministic", count_states=False)
+            rs = vf.tlc_ok(f_sim.result(), "ConcProg sampled schedules of bigger programs")
+            chk.add_tlc(rs, "sampled schedules of bigger programs (-simulate)", count_states=False)
+            known = {c["id"] for c in cases}
+            big = [c for c in _cases(rs.records) if c["id"] not in known]
+            ego = f_bin.result()
+        if nex < 100 or not big:
+            raise vf.NoVerdict("generator too weak: %d exhaustive cases, %d bigger ones" % (nex, len(big)))
+        if any(c["out"] != c["exp"] for c in cases + big):
+            raise vf.NoVerdict("a finished behaviour printed something else than its builder declared")
+        # 3. spec vs Go
+        gd = os.path.join(sd, "gox")
+        os.makedirs(gd)
+        allc = cases + big
+        _write(os.path.join(gd, "main.go"), render(allc, lang="go"))
+        pg = vf.run([vf.GO, "run", "main.go"], cwd=gd, env=vf.goenv(), timeout=1800)
+        gobs, gother = observe(pg.stdout, 1, len(allc))
+        if pg.returncode != 0:
+            raise vf.NoVerdict("Go cross-check did not run (rc=%s)\n%s" % (pg.returncode, pg.stderr[-2500:]))
+        for c, o in zip(allc, gobs):
+            if not agree(c, o):
+                raise vf.NoVerdict("specification bug: for the program %s ConcProg predicts %s, Go prints %s" % (c["id"], c["out"], o))
+        chk.cov["spec_vs_go"] = "%d programs printed as Go: Go prints exactly what ConcProg predicts" % len(allc)
+        # 4. R on the race build
+        per = 16
+        byform = {}
+        pool = list(cases)
+        rng.shuffle(pool)
+        if not thorough:        # one case of every class first, then a seeded sample
+            first, rest, seen = [], [], set()
+            for c in pool:
+                (rest if _cls(c) in seen else first).append(c)
+                seen.add(_cls(c))
+            pool = first + rest[:max(0, 240 - len(first))]
+        for c in pool:
+            byform.setdefault(c["form"], []).append(c)
+        files, k = [], 0
+        for form in sorted(byform):
+            cs = byform[form]
+            for j in range(0, len(cs), per):
+                combos = [(p_, y) for p_ in PROCS for y in ((25, 120) if thorough else (40,))] if thorough else [None]
+                for combo in combos:
+                    k += 1
+                    procs, rate = combo if combo else (PROCS[k % 4], (15, 40, 120)[k % 3])
+                    files.append((cs[j:j + per], procs, "%d:%d" % (vf.SEED * 1000 + k, rate)))
+        bigsel = big if thorough else rng.sample(big, min(len(big), 12))
+        for j, c in enumerate(bigsel):
+            files.append(([c], PROCS[j % 4], "%d:%d" % (vf.SEED * 1000 + 500 + j, (10, 60)[j % 2])))
+        stats = {"late": [], "procs": 0, "run": 0, "vals": 0, "suspects": []}
+        runs = _run_R(ego, env, sd, files, "r", 600)
+        _judge_R(chk, runs, stats)
+        if stats["late"]:       # an overloaded machine, not a verdict: once more with fewer processes side by side
+            again = _run_R(ego, env, sd, stats["late"], "rl", 2400)
+            stats["late"] = []
+            _judge_R(chk, again, stats)
+            if stats["late"]:
+                raise vf.NoVerdict("%d generated programs did not finish within 2400 s" % len(stats["late"]))
+            runs += again
+        # a case that differs inside a shared process is run alone before it is blamed
+        alone = stats["suspects"][:60]
+        stats["suspects"] = []
+        if alone:
+            sruns = _run_R(ego, env, sd, [([c], procs, yld) for c, procs, yld, o, rc, se, other in alone], "s", 900)
+            for (c, procs, yld, o, rc, se, other), (b, _p, _y, (rc2, so2, se2), path) in zip(alone, sruns):
+                if rc2 is None:
+                    raise vf.NoVerdict("a generated program did not finish within 900 s: " + c["id"])
+                o2 = observe(so2, 1, 1)[0][0]
+                fatal = _FATAL.search(se2) if rc2 not in (0, 66) else None
+                if agree(c, o2):
+                    chk.violation("interference/" + _cls(c),
+                                  "a case prints what the specification says when run alone but not after other cases in the same "
+                                  "process: %s printed %s (expected %s) %s" % (c["id"], o["out"], c["out"], " ".join(other)[:200]),
+                                  {"mode": "R", "cases": [c], "gomaxprocs": procs, "yield": yld, "first_run": o, "stderr": se})
+                elif fatal:
+                    chk.violation("fatal/%s/%s" % (c["form"], re.sub(r"[^A-Za-z ]+", "", fatal.group(1))[:40].strip().replace(" ", "-")),
+                                  "the interpreter died with a Go runtime error while the fully synchronized program %s runs: %s"
+                                  % (c["id"], fatal.group(1)), {"mode": "R", "cases": [c], "gomaxprocs": procs, "yield": yld, "stderr": se2[-3000:]})
+                else:
+                    chk.violation("out/" + _cls(c),
+                                  "program %s (GOMAXPROCS=%s, yield %s): the specification (and Go) print %s, the real interpreter "
+                                  "printed %s%s %s" % (c["id"], procs, yld, c["out"], o2["out"], "" if o2["ended"] else " and did not finish",
+                                                       se2.strip()[-200:]),
+                                  {"mode": "R", "cases": [c], "gomaxprocs": procs, "yield": yld, "observed": o2, "program": render([c])})
+        # 5. T
+        tsel, seen = [], set()
+        tp = list(cases)
+        rng.shuffle(tp)
+        for c in tp:
+            key = (c["form"], c["site"], c["shape"], c["fam"]) if thorough else (c["form"], c["site"], c["shape"] if c["fam"] == "counter" else c["fam"])
+            if key not in seen:
+                seen.add(key)
+                tsel.append(c)
+        if thorough:
+            tsel += rng.sample(big, min(len(big), 20))
+        evs, bad, loose, raw, used = _trace_stage(chk, ego, env, sd, tsel, "t", 900)
+        _trace_violations(chk, bad)
+        # 6. binding self-tests
+        okrun = next(((b, r_) for b, _p, _y, r_, _q in runs if r_[0] == 0 and len(b) > 1), None)
+        if okrun:
+            b, (rc, so, se) = okrun
+            obs, _o = observe(so, 1, len(b))
+            pert = [dict(c, out=[v + 1 for v in c["out"]]) for c in b]
+            rej = sum(1 for c, o in zip(pert, obs) if not agree(c, o))
+            if rej != len(b):
+                raise vf.NoVerdict("binding self-test (R) failed: %d of %d perturbed expectations rejected" % (rej, len(b)))
+            chk.cov["binding_selftest_R"] = "%d of %d perturbed expectations rejected" % (rej, len(b))
+        elif not chk.cands:
+            raise vf.NoVerdict("no shared process ended normally")
+        badidx = {b["idx"] for b in bad}
+        cor = [dict(e) for e in evs]
+        done = {"fork": 0, "acc": 0}
+        for i, e in enumerate(cor):
+            if (i + 1) in badidx:
+                continue
+            if e["e"] == "fork" and e["h"] and not done["fork"] and all(f == 1 for ch_ in e["h"] for _t, f in ch_):
+                e["h"] = [[[t, 0] if j == 0 else [t, f] for j, (t, f) in enumerate(ch_)] for ch_ in e["h"]]
+                done["fork"] = i + 1
+            elif e["e"] == "acc" and e["s"] and e["l"] and e["w"] and not done["acc"] and done["fork"]:
+                others = [x for x in cor if x["run"] == e["run"] and x["e"] == "acc" and x["t"] == e["t"] and x["g"] != e["g"]]
+                if others:
+                    e["l"] = False
+                    done["acc"] = i + 1
+        if not (done["fork"] and done["acc"]):
+            raise vf.NoVerdict("binding self-test (T): nothing to corrupt in the recorded traces")
+        cp = vf.write_ndjson(os.path.join(sd, "corrupt.ndjson"), cor)
+        rc_ = vf.tlc(SPEC, "SharedTables_Trace", "SharedTables_Trace.cfg", sd, workers=1, files={"trace.ndjson": cp}, timeout=3000)
+        rep = [x for x in rc_.records if isinstance(x, dict) and "bad" in x]
+        got = {(b["idx"], b["rule"]) for b in (rep[-1]["bad"] if rep and isinstance(rep[-1]["bad"], list) else [])}
+        if (done["fork"], "ForkSound") not in got or (done["acc"], "I2") not in got:
+            raise vf.NoVerdict("binding self-test (T) failed: corrupted events %s were not rejected (%s)" % (done, sorted(got)[:6]))
+        chk.cov["binding_selftest_T"] = "a cleared flag in a fork event and a dropped mutex on a shared write were both rejected"
+        # evidence
+        chk.cov["traces_validated_against_impl"] = stats["run"] + len(used)
+        chk.cov["evaluations"] = stats["vals"] + len(evs)
+        chk.cov["distinct_nontrivial"] = len({c["id"] for f_ in files for c in f_[0]} | {c["id"] for c in used})
+        chk.cov["cases_exhaustive"] = nex
+        chk.cov["cases_bigger"] = len(big)
+        chk.cov["processes"] = stats["procs"] + len(used)
+        chk.cov["race_build_runs"] = {"processes": stats["procs"], "gomaxprocs": sorted({f_[1] for f_ in files}),
+                                      "yield_specs": len({f_[2] for f_ in files})}
+        chk.cov["table_events"] = {"recorded": raw, "after_dropping_repetitions": len(evs), "programs": len(used),
+                                   "offending": len(bad),
+                                   "accesses_to_flagged_tables_without_mutex_by_site": sorted({"%s(%s)" % (x["f"], "w" if x["w"] else "r") for x in loose})}
+        chk.cov["classes"] = sorted({_cls(c) for c in cases})
+        chk.cov["rule"] = ("case = one finished behaviour of ConcProg (program + what it prints, the same under every schedule TLC "
+                           "explored) in one launch form and site; R: run by `ego run` built with -race under GOMAXPROCS 1/2/4/16 and "
+                           "seeded yields, printed values compared with TLC's, race reports / fatal errors are violations; "
+                           "T: every table access / fork / start of the run replayed as SharedTables actions, judged by I1, I2, "
+                           "ForkSound, StartSound; non-trivial = every case (each launches goroutines that share state)")
+        chk.cov["exhaustive"] = False
+        for c in (cases[:2] + big[:1]):
+            chk.sample({"case": c["id"], "expected_output": c["out"], "program": render([c])[:1500]})
+    return chk.finish()
